@@ -33,6 +33,7 @@ import (
 	"sort"
 	"strconv"
 	"strings"
+	"sync"
 	"time"
 
 	"github.com/hydraide/hydraide/app/name"
@@ -839,6 +840,26 @@ func (s *c08Stream) Context() context.Context     { return s.ctx }
 func (s *c08Stream) SendMsg(any) error            { return nil }
 func (s *c08Stream) RecvMsg(any) error            { return nil }
 
+// c08NewPath records the field paths of a filter text and reports whether any of them is new
+func c08NewPath(seen map[string]bool, filter string) bool {
+	isNew := false
+	for _, tok := range strings.FieldsFunc(filter, func(r rune) bool { return r == '(' || r == ')' || r == ',' || r == '&' || r == '|' }) {
+		if i := strings.Index(tok, "~"); i > 0 {
+			if !seen[tok[:i]] {
+				seen[tok[:i]] = true
+				isNew = true
+			}
+		}
+	}
+	return isNew
+}
+
+func c08Sorted(items string) string {
+	p := strings.Split(items, ",")
+	sort.Strings(p)
+	return strings.Join(p, ",")
+}
+
 func c08Run(in *bufio.Scanner, w *bufio.Writer) {
 	rig, err := NewRig(3, 2000, 3600, 0)
 	if err != nil {
@@ -848,6 +869,7 @@ func c08Run(in *bufio.Scanner, w *bufio.Writer) {
 	rig.Settings.RegisterPattern(name.New().Sanctuary("c08").Realm("*").Swamp("*"), true, 3600, nil)
 	ctx := context.Background()
 	swampName := ""
+	seenPaths := map[string]bool{}
 	tsOf := func(s string) *timestamppb.Timestamp {
 		v, _ := strconv.ParseInt(s, 10, 64)
 		if v == 0 {
@@ -876,6 +898,7 @@ func c08Run(in *bufio.Scanner, w *bufio.Writer) {
 			switch {
 			case f[0] == "case" && len(f) == 2:
 				swampName = name.New().Sanctuary("c08").Realm("routes").Swamp("case" + f[1]).Get()
+				seenPaths = map[string]bool{}
 				return line
 			case f[0] == "body" && len(f) == 7:
 				raw, err := hex.DecodeString(f[5])
@@ -930,6 +953,36 @@ func c08Run(in *bufio.Scanner, w *bufio.Writer) {
 						return "err:" + c07ErrClass(err)
 					}
 					return strings.Join(st.out, ",")
+				}
+				// First use of a field path in this case: the bucket does not exist yet. Fire the same
+				// query from several goroutines at once — every one of them must see what a lone
+				// caller sees (GetOrBuildBucket's concurrent-first-caller contract).
+				concDiff := ""
+				if g != nil && c08NewPath(seenPaths, f[8]) {
+					const n = 12
+					res := make([]string, n)
+					start := make(chan struct{})
+					var wg sync.WaitGroup
+					for i := 0; i < n; i++ {
+						wg.Add(1)
+						go func(i int) {
+							defer wg.Done()
+							<-start
+							res[i] = c08Sorted(runQ(g))
+						}(i)
+					}
+					close(start)
+					wg.Wait()
+					seq := c08Sorted(runQ(g))
+					for _, r := range res {
+						if r != seq {
+							concDiff = "conc-diff concurrent=[" + r + "] alone=[" + seq + "]"
+							break
+						}
+					}
+				}
+				if concDiff != "" {
+					return concDiff
 				}
 				b := runQ(g)
 				// the same filter as the only sub-group of an OR group: planOr bypasses on sub-groups
